@@ -120,9 +120,21 @@ def run_program(item):
             def mat(ds):
                 res, dp2, _ = DataStreamProcessor()(ds).results(on_error=raise_exception)
                 return dp2, [[copy.deepcopy(dict(r)) for r in rows_] for rows_ in res]
-            dp, rows = mat(Flow(*src()).datastream())
-            for link in links():
-                dp, rows = mat(Flow(link).datastream(as_datastream(dp, rows)))
+            class _IllTyped(Exception):
+                pass
+            try:
+                dp, rows = mat(Flow(*src()).datastream())
+                ls = links()
+                for link in ls[:-1]:
+                    dp, rows = mat(Flow(link).datastream(as_datastream(dp, rows)))
+            except Exception as e:
+                if 'ValidationError' in type(getattr(e, 'cause', e)).__name__ or 'ValidationError' in type(e).__name__:
+                    # an INTERMEDIATE output that does not validate (e.g. a concatenate over differently typed fields whose rows a later
+                    # filter removes): the program is not well-typed, this variant says nothing about it
+                    raise _IllTyped()
+                raise
+            if ls:
+                dp, rows = mat(Flow(ls[-1]).datastream(as_datastream(dp, rows)))
             return final_results(dp, rows)
 
         ref = run_guard(chained)
@@ -136,7 +148,9 @@ def run_program(item):
                 diffs.append(dict(variant=label, chained=ref[1], other=other[1]))
         cmp('step-by-step', sw)
         if ref[0] == 'ok':
-            cmp('step-by-step through results()', run_guard(stepwise_results))
+            swr = run_guard(stepwise_results)
+            if not (swr[0] == 'raised' and '_IllTyped' in str(swr[1])):
+                cmp('step-by-step through results()', swr)
         n = len(names)
         if ref[0] == 'ok':
             for k in range(0, n + 1):
